@@ -286,6 +286,25 @@ func fitReplay(in io.Reader, raw bool, args []string) (*Summary, error) {
 			if !okx() || !oky() {
 				sum.viol("argument-modified", c, "LOESS changed its inputs (or the spare capacity behind them)")
 			}
+			// one smoother evaluated along a non-monotone query sequence (descending, a step back, far jumps): each value
+			// must be what a freshly built smoother returns for that point (the specification's value at x0 among them)
+			if pass == 0 {
+				lo, hi := xs[0], xs[0]
+				for _, x := range xs {
+					lo, hi = math.Min(lo, x), math.Max(hi, x)
+				}
+				var qs []float64
+				for k := 8; k >= 0; k-- {
+					qs = append(qs, lo+(hi-lo)*float64(k)/8)
+				}
+				qs = append(qs, x0, hi, x0-0.25, lo, x0+0.25, (lo+hi)/2, x0)
+				for _, q := range qs {
+					if a, b := f(q), fit.LOESS(px, py, fc.Deg, span)(q); a != b && !(math.IsNaN(a) && math.IsNaN(b)) {
+						sum.viol("LOESS-query-order", c, "LOESS(deg %d, span %v): the smoother returns %.15g at %v after earlier queries, a fresh one %.15g", fc.Deg, span, a, q, b)
+						break
+					}
+				}
+			}
 		}
 	})
 	sum.note("worst_error_over_tolerance", fitWorst)
